@@ -3,33 +3,30 @@ C02 — The result of a run does not depend on event order, timing or engine cac
 C10 — (last sentence) After resume the run continues and, for a deterministic workflow, finishes
       with the same final state, task results and output as if it had never been paused.
 
-SCHEDULE INDEPENDENCE OF THE OUTCOME AS A THEOREM OF THE ENGINE MODEL.
+SCHEDULE INDEPENDENCE OF THE OUTCOME AS A THEOREM OF THE ENGINE MODEL, AT FULL STRENGTH.
 `Mistral.Sem` (Model/Sem.lean) is a declarative semantics of the data-free direct workflows the
 engine core `Mistral.Engine` models: the set of tasks that run, their final states and next_tasks
 and the final workflow state as a function of the DEFINITION (`Spec`) and the RESULTS OF THE ACTIONS
 (`orc`) only - no schedule appears in it.  The theorems below say that the engine model REFINES it:
-under EVERY history (deliveries in any order, pause / resume anywhere) the engine's rows are sound
-w.r.t. the semantics at every moment and equal to it at quiescence.  Two quiescent histories
+under EVERY plain history (deliveries in any order, pause / resume anywhere) the engine's rows are
+sound w.r.t. the semantics at every moment and equal to it at quiescence.  Two quiescent histories
 therefore have the same outcome, with or without pause / resume.
 
-Class of definitions: `SpecOK sp rk` (WP-A: unique names, satisfiable `join: N`, fired routes among
-the transitions, acyclic within the recursion budget, walk budget of the model), a start task,
-known targets - joins of EVERY kind (all / one / N), forks, on-error / on-complete routes, guards
-that do not fire, tasks activated several times, partial joins re-run by late branches: the
+Class of definitions `DetClass`: `SpecOK sp rk` (WP-A: unique names, satisfiable `join: N`, fired
+routes among the transitions, acyclic within the recursion budget, walk budget of the model), a start
+task, known targets - joins of EVERY kind (all / one / N), forks, on-error / on-complete routes,
+guards that do not fire, tasks activated several times, partial joins re-run by late branches: the
 outcome is compared as the workflow state and the SET of rows (name, state, next_tasks).
-Class of histories: `Plain` (no stop, no action lost at its executor - C20 -, executor results =
-the oracle's) and, for the theorems named `_partial`, two explicit exclusions, both genuine defects
-of the code replayed on the real engine:
-  * `NoStaleRestart`: no `start_task(first_run=False)` request (queued by `resume` for a task that was
-    still IDLE) is delivered to a task that has meanwhile FAILED - `_run_existing` runs the failed
-    task again, and if the workflow has finished in between its row is rewritten
-    (`outcome_schedule_independent_full_fails`, corpus/C02/stale_restart_after_finish.json);
-  * `pausedCleanRun` (C01, WP-A): no re-opened join is unfinished at a pause
-    (`Props.C01.no_stuck_acyclic_full_fails`).
+Class of histories: `Plain` = no stop, no action lost at its executor (C20), executor results = the
+oracle's.  NO further restriction: the two exclusions of the first version of these theorems were
+genuine defects of the code, both repaired since -
+  * the re-opened join that kept `processed = True` (C01, fix acd6a089: `PausedClean` is an invariant),
+  * the stale start request: `resume` re-queues `start_task(first_run=False)` for a task that is
+    still IDLE; delivered after the task had FAILED, `_run_existing` ran the failed task again
+    (repo_patches/20: such a request is now ignored; the former counter-witness is the regression
+    `stale_request_regression` below and corpus/C02/stale_restart_after_finish.json).
 -/
 import Mistral.Lemmas.SemRun
-import Mistral.Lemmas.SemNoPause
-import Mistral.Lemmas.SemNoFail
 import Mistral.Lemmas.SemWitness
 namespace Mistral.Props.C02Sem
 open Mistral Mistral.Join Mistral.Engine Mistral.Engine.Live Mistral.Sem Mistral.Sem.Wit
@@ -41,12 +38,6 @@ def Plain (orc : String → Bool) (evs : List Event) : Prop := ∀ e ∈ evs, pl
 
 instance (orc : String → Bool) (evs : List Event) : Decidable (Plain orc evs) := by
   unfold Plain; exact inferInstance
-
-/-- no stale re-start of a failed task anywhere along the history -/
-def NoStaleRestart (sp : Spec) (evs : List Event) : Prop := noStaleFrom sp init evs = true
-
-instance (sp : Spec) (evs : List Event) : Decidable (NoStaleRestart sp evs) := by
-  unfold NoStaleRestart; exact inferInstance
 
 /-- nothing in flight and not waiting for the operator -/
 def Quiescent (w : World) : Prop := w.pending = [] ∧ w.wf ≠ .PAUSED
@@ -64,230 +55,129 @@ structure DetClass (sp : Spec) (rk : String → Nat) : Prop where
   known : TargetsKnown sp
 
 theorem adm_of_plain (sp : Spec) (orc : String → Bool) (evs : List Event) :
-    ∀ (w : World), (∀ e ∈ evs, plainB orc e = true) → noStaleFrom sp w evs = true → admB sp orc w evs = true := by
+    ∀ (w : World), (∀ e ∈ evs, plainB orc e = true) → admB sp orc w evs = true := by
   induction evs with
-  | nil => intro w _ _; rfl
+  | nil => intro w _; rfl
   | cons e es ih =>
-    intro w hp hs
-    have hs' : staleB w e = false ∧ noStaleFrom sp (step sp w e) es = true := by
-      simpa [noStaleFrom] using hs
-    have h1 : admissibleB orc w e = true := by
-      unfold admissibleB
-      rw [hp e List.mem_cons_self, hs'.1]; rfl
-    have h2 := ih (step sp w e) (fun e' he' => hp e' (List.mem_cons_of_mem _ he')) hs'.2
+    intro w hp
+    have h1 : admissibleB orc w e = true := hp e List.mem_cons_self
+    have h2 := ih (step sp w e) (fun e' he' => hp e' (List.mem_cons_of_mem _ he'))
     simp [admB, h1, h2]
+
+theorem plain_start (orc : String → Bool) (evs : List Event) (hp : Plain orc evs) : Plain orc (.start :: evs) := by
+  intro e he
+  rcases List.mem_cons.mp he with rfl | he
+  · rfl
+  · exact hp e he
 
 /-! ### (a) soundness -/
 
-/-- (a) SOUNDNESS, at every moment of every history: every row of the engine is a task of the
-    semantic set, and every completed row has the state and the next_tasks the semantics
-    prescribes.  (Joins of every kind, several activations; no hypothesis on pause / resume; the
-    liveness work of WP-A is not used.) -/
+/-- (a) SOUNDNESS, at every moment of every plain history (deliveries in any order, pause / resume
+    anywhere): every row of the engine is a task of the semantic set, and every completed row has
+    the state and the next_tasks the semantics prescribes.  (Joins of every kind, several
+    activations; the liveness work of WP-A is not used.) -/
 theorem sound (sp : Spec) (rk : String → Nat) (hsp : SpecOK sp rk) (orc : String → Bool) (evs : List Event)
-    (hp : Plain orc evs) (hns : NoStaleRestart sp evs) :
+    (hp : Plain orc evs) :
     ∀ r ∈ (run sp evs).tasks, sem sp orc r.name ≠ none ∧
       (isCompleted r.state = true → sem sp orc r.name = some r.state ∧ r.nextTasks = nextOf sp r.name r.state) := by
-  have h := run_sinv sp orc rk (semSpec_of_specOK sp rk hsp) evs (adm_of_plain sp orc evs init hp hns)
+  have h := run_sinv sp orc rk (semSpec_of_specOK sp rk hsp) evs (adm_of_plain sp orc evs init hp)
   intro r hr
   exact ⟨(h.rows r hr).1, (h.rows r hr).2.1⟩
 
 /-- … and every action result in flight is the oracle's, for a task that executes its action in
     the semantics (a join that the semantics fails structurally never runs its action) -/
 theorem sound_actions (sp : Spec) (rk : String → Nat) (hsp : SpecOK sp rk) (orc : String → Bool) (evs : List Event)
-    (hp : Plain orc evs) (hns : NoStaleRestart sp evs) (t : Tid) (ok : Bool)
+    (hp : Plain orc evs) (t : Tid) (ok : Bool)
     (h : Item.rpcResult t ok ∈ (run sp evs).pending) : sem sp orc t.1 = some (res orc t.1) ∧ ok = orc t.1 :=
-  (run_sinv sp orc rk (semSpec_of_specOK sp rk hsp) evs (adm_of_plain sp orc evs init hp hns)).items _ h
+  (run_sinv sp orc rk (semSpec_of_specOK sp rk hsp) evs (adm_of_plain sp orc evs init hp)).items _ h
 
 /-! ### (b) completeness at quiescence -/
 
-/-- (b) COMPLETENESS AT QUIESCENCE: when nothing is pending and the workflow is not PAUSED, the
-    workflow is completed, its state is the semantic verdict and its rows are EXACTLY the semantic
-    set (as a set of (name, state, next_tasks)). -/
-theorem complete_at_quiescence_partial (sp : Spec) (rk : String → Nat) (hd : DetClass sp rk) (orc : String → Bool)
-    (evs : List Event) (hp : Plain orc evs) (hns : NoStaleRestart sp (.start :: evs))
-    (hc : Props.C01.pausedCleanRun sp (.start :: evs)) (hq : Quiescent (run sp (.start :: evs))) :
+/-- (b) COMPLETENESS AT QUIESCENCE, every plain history: when nothing is pending and the workflow
+    is not PAUSED, the workflow is completed, its state is the semantic verdict and its rows are
+    EXACTLY the semantic set (as a set of (name, state, next_tasks)). -/
+theorem complete_at_quiescence (sp : Spec) (rk : String → Nat) (hd : DetClass sp rk) (orc : String → Bool)
+    (evs : List Event) (hp : Plain orc evs) (hq : Quiescent (run sp (.start :: evs))) :
     (run sp (.start :: evs)).wf = semVerdict sp orc ∧
       ∀ x : SRow, x ∈ (run sp (.start :: evs)).tasks.map rowTriple ↔ x ∈ semRows sp orc := by
-  have hp' : ∀ e ∈ Event.start :: evs, plainB orc e = true := by
-    intro e he
-    rcases List.mem_cons.mp he with rfl | he
-    · rfl
-    · exact hp e he
-  have hq' := run_qinv sp orc rk hd.ok hd.starts evs (adm_of_plain sp orc _ init hp' hns) hc
+  have hq' := run_qinv sp orc rk hd.ok hd.starts evs (adm_of_plain sp orc _ init (plain_start orc evs hp))
   exact (quiescent_complete sp orc rk hd.ok hd.known _ hq' hq.1 hq.2).2
+
+/-- … and the workflow is then in a final state -/
+theorem quiescent_is_final (sp : Spec) (rk : String → Nat) (hd : DetClass sp rk) (orc : String → Bool)
+    (evs : List Event) (hp : Plain orc evs) (hq : Quiescent (run sp (.start :: evs))) :
+    isCompleted (run sp (.start :: evs)).wf = true := by
+  have hq' := run_qinv sp orc rk hd.ok hd.starts evs (adm_of_plain sp orc _ init (plain_start orc evs hp))
+  exact (quiescent_complete sp orc rk hd.ok hd.known _ hq' hq.1 hq.2).1
 
 /-! ### (c) schedule independence of the outcome -/
 
-/-- (c) `outcome_schedule_independent`, proved part: two quiescent histories of the same
-    definition under the same action results - deliveries in any order, pause / resume anywhere -
-    have the same outcome. -/
-theorem outcome_schedule_independent_partial (sp : Spec) (rk : String → Nat) (hd : DetClass sp rk)
-    (orc : String → Bool) (evs1 evs2 : List Event)
-    (hp1 : Plain orc evs1) (hp2 : Plain orc evs2)
-    (hns1 : NoStaleRestart sp (.start :: evs1)) (hns2 : NoStaleRestart sp (.start :: evs2))
-    (hc1 : Props.C01.pausedCleanRun sp (.start :: evs1)) (hc2 : Props.C01.pausedCleanRun sp (.start :: evs2))
+/-- (c) "the final state, task states … are a function of the definition, the input and the action
+    results only; reordering concurrent action completions, engine messages and scheduler jobs,
+    delaying any of them … never changes them": ANY two plain quiescent histories of the same
+    definition under the same action results - deliveries in any order, pause / resume anywhere in
+    both - have the same outcome. -/
+theorem outcome_schedule_independent (sp : Spec) (rk : String → Nat) (hd : DetClass sp rk)
+    (orc : String → Bool) (evs1 evs2 : List Event) (hp1 : Plain orc evs1) (hp2 : Plain orc evs2)
     (hq1 : Quiescent (run sp (.start :: evs1))) (hq2 : Quiescent (run sp (.start :: evs2))) :
     SameOutcome (run sp (.start :: evs1)) (run sp (.start :: evs2)) := by
-  obtain ⟨v1, r1⟩ := complete_at_quiescence_partial sp rk hd orc evs1 hp1 hns1 hc1 hq1
-  obtain ⟨v2, r2⟩ := complete_at_quiescence_partial sp rk hd orc evs2 hp2 hns2 hc2 hq2
+  obtain ⟨v1, r1⟩ := complete_at_quiescence sp rk hd orc evs1 hp1 hq1
+  obtain ⟨v2, r2⟩ := complete_at_quiescence sp rk hd orc evs2 hp2 hq2
   exact ⟨v1.trans v2.symm, fun x => (r1 x).trans (r2 x).symm⟩
 
 /-! ### (d) pause / resume -/
 
-/-- a history without operator commands -/
 def isOp : Event → Bool
   | .pause => true
   | .resume => true
   | _ => false
 
+/-- a history without operator commands -/
 def NoPauseResume (evs : List Event) : Prop := ∀ e ∈ evs, isOp e = false
-
-theorem NoPauseResume.ne (evs : List Event) (h : NoPauseResume evs) (e : Event) (he : e ∈ evs) :
-    e ≠ .pause ∧ e ≠ .resume := by
-  have := h e he
-  constructor <;> (intro hc; subst hc; cases this)
 
 instance (evs : List Event) : Decidable (NoPauseResume evs) := by unfold NoPauseResume; exact inferInstance
 
-theorem noStale_of_norerun (sp : Spec) (evs : List Event) :
-    ∀ (w : World), NoRerun w → (∀ e ∈ evs, e ≠ .resume) → noStaleFrom sp w evs = true := by
-  induction evs with
-  | nil => intro w _ _; rfl
-  | cons e es ih =>
-    intro w h hn
-    have h1 := norerun_not_stale w e h
-    have h2 := ih (step sp w e) (step_norerun sp w e h (hn e List.mem_cons_self))
-      (fun e' he' => hn e' (List.mem_cons_of_mem _ he'))
-    simp [noStaleFrom, h1, h2]
-
-/-- a history without pause / resume is inside both history classes: the workflow is never PAUSED
-    and no re-run request is ever in flight -/
-theorem nopause_in_class (sp : Spec) (evs : List Event) (h : NoPauseResume evs) :
-    NoStaleRestart sp (.start :: evs) ∧ Props.C01.pausedCleanRun sp (.start :: evs) := by
-  constructor
-  · apply noStale_of_norerun sp _ init
-    · intro it hi; simp [init] at hi
-    · intro e he
-      rcases List.mem_cons.mp he with rfl | he
-      · intro hc; cases hc
-      · exact (h.ne evs e he).2
-  · apply nopause_clean
-    intro e he
-    rcases List.mem_cons.mp he with rfl | he
-    · intro hc; cases hc
-    · exact (h.ne evs e he).1
-
-/-- (d) `pause_resume_same_outcome` (C10: "after resume the run … finishes with the same final
-    state, task results and output as if it had never been paused"), proved part: a quiescent
-    history with pause / resume anywhere has the same outcome as ANY quiescent history without
-    them (any delivery order). -/
-theorem pause_resume_same_outcome_partial (sp : Spec) (rk : String → Nat) (hd : DetClass sp rk)
-    (orc : String → Bool) (evs1 evs2 : List Event)
-    (hp1 : Plain orc evs1) (hp2 : Plain orc evs2) (hnp2 : NoPauseResume evs2)
-    (hns1 : NoStaleRestart sp (.start :: evs1)) (hc1 : Props.C01.pausedCleanRun sp (.start :: evs1))
+/-- (d) C10: "after resume the run continues and … finishes with the same final state, task results
+    and output as if it had never been paused": a quiescent history with pause / resume ANYWHERE
+    has the same outcome as ANY quiescent history that was never paused (in any delivery order). -/
+theorem pause_resume_same_outcome (sp : Spec) (rk : String → Nat) (hd : DetClass sp rk)
+    (orc : String → Bool) (evs1 evs2 : List Event) (hp1 : Plain orc evs1) (hp2 : Plain orc evs2)
+    (_hnp2 : NoPauseResume evs2)
     (hq1 : Quiescent (run sp (.start :: evs1))) (hq2 : Quiescent (run sp (.start :: evs2))) :
-    SameOutcome (run sp (.start :: evs1)) (run sp (.start :: evs2)) := by
-  obtain ⟨hns2, hc2⟩ := nopause_in_class sp evs2 hnp2
-  exact outcome_schedule_independent_partial sp rk hd orc evs1 evs2 hp1 hp2 hns1 hns2 hc1 hc2 hq1 hq2
+    SameOutcome (run sp (.start :: evs1)) (run sp (.start :: evs2)) :=
+  outcome_schedule_independent sp rk hd orc evs1 evs2 hp1 hp2 hq1 hq2
 
-/-- without operator commands the statement holds at full strength: ANY two quiescent histories
-    of deliveries (any order) have the same outcome -/
-theorem outcome_schedule_independent_nopause (sp : Spec) (rk : String → Nat) (hd : DetClass sp rk)
-    (orc : String → Bool) (evs1 evs2 : List Event)
-    (hp1 : Plain orc evs1) (hp2 : Plain orc evs2) (hnp1 : NoPauseResume evs1) (hnp2 : NoPauseResume evs2)
-    (hq1 : Quiescent (run sp (.start :: evs1))) (hq2 : Quiescent (run sp (.start :: evs2))) :
-    SameOutcome (run sp (.start :: evs1)) (run sp (.start :: evs2)) := by
-  obtain ⟨hns1, hc1⟩ := nopause_in_class sp evs1 hnp1
-  exact pause_resume_same_outcome_partial sp rk hd orc evs1 evs2 hp1 hp2 hnp2 hns1 hc1 hq1 hq2
-
-/-! ### when no plain task fails the stale re-start is impossible -/
-
-/-- if no action of a task that is not a join fails (joins may fail, by their action or
-    structurally), EVERY plain history is free of stale re-starts -/
-theorem nofail_in_class (sp : Spec) (rk : String → Nat) (hsp : SpecOK sp rk) (orc : String → Bool)
-    (hok : PlainTasksSucceed sp orc) (evs : List Event) (hp : Plain orc evs) : NoStaleRestart sp evs :=
-  noStale_of_plainok sp orc rk (semSpec_of_specOK sp rk hsp) hok evs init (sinv_init sp orc) (Imp.ji_init sp) hp
-
-/-- (c) / (d) for oracles under which no plain task fails: ANY two plain quiescent histories -
-    pause / resume anywhere in both - inside WP-A's class have the same outcome.  (The stale
-    re-start is the ONLY obstacle to the full statement besides the C01 finding.) -/
-theorem outcome_schedule_independent_nofail (sp : Spec) (rk : String → Nat) (hd : DetClass sp rk)
-    (orc : String → Bool) (hok : PlainTasksSucceed sp orc) (evs1 evs2 : List Event)
-    (hp1 : Plain orc evs1) (hp2 : Plain orc evs2)
-    (hc1 : Props.C01.pausedCleanRun sp (.start :: evs1)) (hc2 : Props.C01.pausedCleanRun sp (.start :: evs2))
-    (hq1 : Quiescent (run sp (.start :: evs1))) (hq2 : Quiescent (run sp (.start :: evs2))) :
-    SameOutcome (run sp (.start :: evs1)) (run sp (.start :: evs2)) := by
-  have hp' : ∀ (evs : List Event), Plain orc evs → Plain orc (.start :: evs) := by
-    intro evs hp e he
-    rcases List.mem_cons.mp he with rfl | he
-    · rfl
-    · exact hp e he
-  exact outcome_schedule_independent_partial sp rk hd orc evs1 evs2 hp1 hp2
-    (nofail_in_class sp rk hd.ok orc hok _ (hp' evs1 hp1)) (nofail_in_class sp rk hd.ok orc hok _ (hp' evs2 hp2))
-    hc1 hc2 hq1 hq2
-
-/-- non-vacuity: under the all-success oracle no plain task of the fork / join definition fails -/
-example : PlainTasksSucceed fjSpec (fun _ => true) := fun _ _ => rfl
-
-/-! ### the statements at full strength are FALSE of the code: the stale re-start -/
-
-open Mistral.Sem.Wit
+/-! ### regression: the stale start request -/
 
 theorem s_plain1 : Plain sOrc sPlain := by decide
 theorem s_plain2 : Plain sOrc sStale := by decide
-theorem s_q1 : Quiescent (run sSpec (.start :: sPlain)) := by decide +kernel
-theorem s_q2 : Quiescent (run sSpec (.start :: sStale)) := by decide +kernel
-theorem s_rows1 : (run sSpec (.start :: sPlain)).tasks.map rowTriple =
-    [("t0", .ERROR, [("t1", "on-error")]), ("t1", .SUCCESS, [])] := by decide +kernel
-/-- after the stale re-start inside the finished workflow the row of t0 has lost its next_tasks
-    (and its `error_handled` flag: the workflow is SUCCESS with an unhandled ERROR task) -/
-theorem s_rows2 : (run sSpec (.start :: sStale)).tasks.map rowTriple =
-    [("t0", .ERROR, []), ("t1", .SUCCESS, [])] := by decide +kernel
-theorem s_handled2 : (run sSpec (.start :: sStale)).wf = .SUCCESS ∧
-    ((run sSpec (.start :: sStale)).tasks.map fun r => (r.name, r.errorHandled)) = [("t0", false), ("t1", false)] := by
+
+/-- The former counter-witness of (c) / (d).  Task t0 fails and has an on-error route to t1.
+    History `sStale`: pause / resume while t0 is still IDLE (`resume` queues a second start request,
+    `first_run=False`); the original request starts t0, t0 fails, t1 runs, the workflow finishes
+    SUCCESS; THEN the second request is delivered.  Before repo_patches/20 `_run_existing` ran the
+    failed t0 again inside the finished workflow and rewrote its row (next_tasks = [],
+    error_handled = False); now the request is ignored: the history is quiescent after it, and its
+    rows are those of the history without operator commands - the semantic ones. -/
+theorem stale_request_regression :
+    Quiescent (run sSpec (.start :: sStale)) ∧ Quiescent (run sSpec (.start :: sPlain)) ∧
+    (run sSpec (.start :: sStale)).wf = .SUCCESS ∧
+    (run sSpec (.start :: sStale)).tasks.map rowTriple =
+      [("t0", .ERROR, [("t1", "on-error")]), ("t1", .SUCCESS, [])] ∧
+    (run sSpec (.start :: sPlain)).tasks.map rowTriple = (run sSpec (.start :: sStale)).tasks.map rowTriple ∧
+    ((run sSpec (.start :: sStale)).tasks.map fun r => (r.name, r.errorHandled)) = [("t0", true), ("t1", false)] ∧
+    semRows sSpec sOrc = [("t0", .ERROR, [("t1", "on-error")]), ("t1", .SUCCESS, [])] := by
   decide +kernel
 
-theorem s_differ : ¬ SameOutcome (run sSpec (.start :: sPlain)) (run sSpec (.start :: sStale)) := by
-  intro h
-  have h1 : (("t0", St.ERROR, [("t1", "on-error")]) : SRow) ∈ (run sSpec (.start :: sPlain)).tasks.map rowTriple := by
-    rw [s_rows1]; simp
-  have h2 := (h.2 _).mp h1
-  rw [s_rows2] at h2
-  simp at h2
+/-- the stale request is really delivered in that history (the last event is a stale start
+    request in the sense of `staleB`: pending, for a task in state ERROR) -/
+example : staleB (run sSpec (.start :: sStale.take 14)) (.deliver (.rpcStartTask ("t0", 0) false)) = true ∧
+    sStale.drop 14 = [.deliver (.rpcStartTask ("t0", 0) false)] := ⟨by decide +kernel, rfl⟩
 
-/-- (c) `outcome_schedule_independent` AT FULL STRENGTH - every definition of the class, every
-    oracle, EVERY two plain quiescent histories - is FALSE of the code.  Witness: task t0 fails and
-    has an on-error route to t1.  History 1: no operator command.  History 2: pause / resume while
-    t0 is still IDLE (`resume` queues a second start request, `first_run=False`); the original
-    request starts t0, t0 fails, t1 runs, the workflow finishes SUCCESS; THEN the second request
-    is delivered: `_run_existing` runs the failed t0 again inside the finished workflow, and its
-    second completion rewrites the row (next_tasks = [], error_handled = False).  The same event
-    list replayed on the real engine gives the same rows after every event
-    (corpus/C02/stale_restart_after_finish.json): known finding. -/
-theorem outcome_schedule_independent_full_fails :
-    ¬ (∀ (sp : Spec) (rk : String → Nat), DetClass sp rk → ∀ (orc : String → Bool) (evs1 evs2 : List Event),
-        Plain orc evs1 → Plain orc evs2 →
-        Quiescent (run sp (.start :: evs1)) → Quiescent (run sp (.start :: evs2)) →
-        SameOutcome (run sp (.start :: evs1)) (run sp (.start :: evs2))) := by
-  intro hall
-  exact s_differ (hall sSpec sRank ⟨s_ok, s_starts, s_known⟩ sOrc sPlain sStale s_plain1 s_plain2 s_q1 s_q2)
-
-/-- (d) `pause_resume_same_outcome` AT FULL STRENGTH is FALSE of the code, by the same witness:
-    the history with the pause / resume round ends with another row for t0 than the history that
-    was never paused. -/
-theorem pause_resume_same_outcome_full_fails :
-    ¬ (∀ (sp : Spec) (rk : String → Nat), DetClass sp rk → ∀ (orc : String → Bool) (evs1 evs2 : List Event),
-        Plain orc evs1 → Plain orc evs2 → NoPauseResume evs2 →
-        Quiescent (run sp (.start :: evs1)) → Quiescent (run sp (.start :: evs2)) →
-        SameOutcome (run sp (.start :: evs1)) (run sp (.start :: evs2))) := by
-  intro hall
-  have h := hall sSpec sRank ⟨s_ok, s_starts, s_known⟩ sOrc sStale sPlain s_plain2 s_plain1 (by decide) s_q2 s_q1
-  exact s_differ ⟨h.1.symm, fun x => (h.2 x).symm⟩
-
-/-- … and the witness history is outside the class of the proved theorems exactly at the
-    delivery of the stale request -/
-theorem witness_is_stale : ¬ NoStaleRestart sSpec (.start :: sStale) ∧ NoStaleRestart sSpec (.start :: sStale.take 14) := by
-  decide +kernel
+/-- `outcome_schedule_independent` applies to it -/
+example : SameOutcome (run sSpec (.start :: sStale)) (run sSpec (.start :: sPlain)) :=
+  outcome_schedule_independent sSpec sRank ⟨s_ok, s_starts, s_known⟩ sOrc sStale sPlain s_plain2 s_plain1
+    stale_request_regression.1 stale_request_regression.2.1
 
 /-! ### non-vacuity: a fork / join with a failing branch and an on-error route -/
 
@@ -305,14 +195,12 @@ example : semRows fjSpec (fun _ => true) =
        ("c", .SUCCESS, [("j", "on-success")]), ("j", .SUCCESS, [("k", "on-success")]), ("k", .SUCCESS, [])] ∧
     semVerdict fjSpec (fun _ => true) = .SUCCESS := by decide +kernel
 
-/-- `complete_at_quiescence_partial` / `pause_resume_same_outcome_partial` apply to the history with
-    the pause / resume round (both branches complete while PAUSED, the join is created by `resume`)
-    and to the first-in first-out history without operator commands: all hypotheses hold … -/
+/-- `complete_at_quiescence` / `pause_resume_same_outcome` apply to the history with the pause /
+    resume round (both branches complete while PAUSED, the join is created by `resume`) and to the
+    first-in first-out history without operator commands: all hypotheses hold … -/
 example : DetClass fjSpec fjRank ∧ Plain fjOrc fjPaused ∧ Plain fjOrc fjFifo ∧ NoPauseResume fjFifo ∧
-    NoStaleRestart fjSpec (.start :: fjPaused) ∧ Props.C01.pausedCleanRun fjSpec (.start :: fjPaused) ∧
     Quiescent (run fjSpec (.start :: fjPaused)) ∧ Quiescent (run fjSpec (.start :: fjFifo)) :=
-  ⟨⟨fj_ok, fj_starts, fj_known⟩, by decide, by decide, by decide, by decide +kernel,
-   cleanFromB_sound fjSpec _ init (by decide +kernel), by decide +kernel, by decide +kernel⟩
+  ⟨⟨fj_ok, fj_starts, fj_known⟩, by decide, by decide, by decide, by decide +kernel, by decide +kernel⟩
 
 /-- … and the common outcome is the semantic one (ERROR; five rows) -/
 example : (run fjSpec (.start :: fjPaused)).wf = .ERROR ∧
@@ -322,11 +210,11 @@ example : (run fjSpec (.start :: fjPaused)).wf = .ERROR ∧
 
 /-- `sound` applies in the middle of the paused run (after the failing branch completed while
     PAUSED): hypotheses hold, three rows exist, none of the join yet -/
-example : Plain fjOrc (.start :: fjPaused.take 16) ∧ NoStaleRestart fjSpec (.start :: fjPaused.take 16) ∧
+example : Plain fjOrc (.start :: fjPaused.take 16) ∧
     (run fjSpec (.start :: fjPaused.take 16)).wf = .PAUSED ∧
     (run fjSpec (.start :: fjPaused.take 16)).tasks.map rowTriple =
       [("a", .SUCCESS, [("b", "on-success"), ("c", "on-success")]), ("b", .ERROR, [("h", "on-error")]),
        ("c", .SUCCESS, [("j", "on-success")])] := by
-  refine ⟨by decide, by decide +kernel, by decide +kernel, by decide +kernel⟩
+  refine ⟨by decide, by decide +kernel, by decide +kernel⟩
 
 end Mistral.Props.C02Sem
